@@ -6,6 +6,7 @@ def run(ctx, rep):
     runloop.r13a(ctx, rep)
     runloop.r13b(ctx, rep)
     runloop.r13c(ctx, rep)
+    runloop.r13d(ctx, rep)
     rep.note("composes with C03: a collection at a slice boundary is an instruction-boundary collection (R03a-d)")
     rep.not_decided += ["value/effect equality of sliced and uninterrupted runs for concrete programs",
                         "the JavaScript resume loop of the wasm front end"]
